@@ -578,6 +578,19 @@ def expand(prog: 'object') -> list[str]:
                                     par_, fld_, cur_ = cur_, 'left', cur_.left
                                 else:
                                     break
+                        # --- `for t in helper(...):` over a statement helper that returns a collection: bind it first
+                        if isinstance(st, ast.For) and isinstance(st.iter, ast.Call):
+                            r0 = resolve(caller, st.iter)
+                            if r0 and r0[0] is not caller and not _single_yield(_body(r0[0].node)) and _as_expr(_body(r0[0].node)) is None \
+                                    and _tail_returns_only(_body(r0[0].node)) and not any(isinstance(n, (ast.Yield, ast.YieldFrom)) for x in _body(r0[0].node) for n in ast.walk(x)):
+                                counter += 1
+                                tmpn = f'{r0[0].name.lstrip("_")}__v{counter}'
+                                asg = ast.copy_location(ast.Assign(targets=[ast.copy_location(ast.Name(id=tmpn, ctx=ast.Store()), st.iter)], value=st.iter, lineno=st.lineno), st)
+                                st.iter = ast.copy_location(ast.Name(id=tmpn, ctx=ast.Load()), st.iter)
+                                blk.insert(i, asg)
+                                ast.fix_missing_locations(asg)
+                                st = blk[i]
+                                call, target = st.value, st.targets[0]
                         # --- G shape: `for t in helper(...): BODY` over a new generator with a single `yield e`:
                         # the generator's code with BODY (after `t = e`) in place of the yield
                         if isinstance(st, (ast.For,)) and isinstance(st.iter, ast.Call) and not st.orelse and not _jumps(st.body):
